@@ -302,6 +302,8 @@ def _lib_dir():
             "    v = vc13world.TABLE.get(key)\n"
             "    if v is None:\n"
             f"        raise LookupError('{nm}: no pipeline ' + repr(key))\n"
+            "    if isinstance(v, list):\n"
+            "        return v          # a payload that is not a mapping at the top level\n"
             "    return {'steps': [{'name': 'vc13step', 'in': {'v': v}}]}\n")
     _LIB['dir'] = str(d)
     import atexit
@@ -434,6 +436,7 @@ class StackRig:
     def apply_world(self, world):
         """world = {'files': {abstract path: version}, 'custom': [[l, parent|None, name, version|None]…]}"""
         want = {self.conc(p): v for p, v in world['files'].items()}
+        bad = set(world.get('badv', ()))      # versions whose content is a list, not a mapping, at the top level
         for dp, _, fn in os.walk(self.root):
             for f in fn:
                 full = os.path.join(dp, f)
@@ -441,13 +444,17 @@ class StackRig:
                     os.remove(full)
         for full, v in want.items():
             os.makedirs(os.path.dirname(full), exist_ok=True)
-            Path(full).write_text(f"steps:\n  - name: vc13step\n    in:\n      v: {v}\n")
+            if v in bad:
+                Path(full).write_text(f"- vc13step\n- {v}\n")
+            else:
+                Path(full).write_text(f"steps:\n  - name: vc13step\n    in:\n      v: {v}\n")
         for d in world.get('dirs', []):
             os.makedirs(self.conc(d), exist_ok=True)
         self.world.TABLE.clear()
         for l, parent, name, v in world['custom']:
             if v is not None:
-                self.world.TABLE[(LOADER_NAMES[l], str(self.conc(parent)) if parent else None, self.conc(name))] = v
+                self.world.TABLE[(LOADER_NAMES[l], str(self.conc(parent)) if parent else None, self.conc(name))] = \
+                    ['vc13step', v] if v in bad else v
 
     # ---- one run through a real client ----------------------------------------------------
     def _parent(self, rq):
@@ -510,14 +517,14 @@ class StackRig:
             err = type(e).__name__
         trail = list(self.world.TRAIL)
         d = {k: self.counts[k] - before[k] for k in self.counts}
-        if err in ('PipelineNotFoundError', 'LookupError') and not trail:
-            ran = None
+        if err in ('PipelineNotFoundError', 'LookupError', 'PipelineDefinitionError') and not trail:
+            ran = None            # the look-up failed: source absent / the loader raised / payload rejected
         elif err is None and len(trail) == 1:
             ran = trail[0]
         else:
             ran = {'unexpected': err, 'trail': trail}
         return {'ran': ran, 'loaderMade': d['loader'] > 0, 'defMade': self._defs(d, l) > 0, 'fileRead': d['file'] > 0,
-                'stepMade': d['step'] > 0, 'counts': d}
+                'stepMade': d['step'] > 0, 'counts': d, 'err': err}
 
     def _defs(self, d, l):
         if l == 0:
